@@ -39,6 +39,10 @@ def value_cases(ctx):
             for mode in ("commit", "plain"):
                 for st in ("generic", "hi-1", "wrap"):
                     cases.append(dict(sys=sysn, mode=mode, kind="rangecheck", bits=0, x=str(x), strat=st))
+        # bit-decomposition mechanism: gnark's digit hint with everything in digit 0 (recomposes, is not a bit)
+        cases.append(dict(sys="engine", mode="plain", kind="rangecheck", bits=0, x=str(x), strat="nonbool"))
+        for sysn in ("r1cs", "scs"):
+            cases.append(dict(sys=sysn, mode="plain", kind="rangecheck", bits=0, x=str(x), strat="nonbool"))
     all_w = list(range(1, 65)) + [96, 144, 192]
     if thorough:
         widths = all_w
@@ -48,9 +52,16 @@ def value_cases(ctx):
         vals = [0, 1, 2**n - 1, 2**n, 2**n + 1, R - 1, rnd.randrange(2**n), rnd.randrange(2**n, R)]
         if thorough:
             vals += [rnd.randrange(2**n) for _ in range(4)] + [rnd.randrange(2**n, min(R, 2**(n + 8))) for _ in range(4)] + [2**(n + 1), R - 2**n]
+        # field fractions j / 2^t mod r: in the scalar field x * 2^t is small although x is not (a width check done on a shifted value
+        # would accept them)
+        t = (16 - n % 16) % 16 or 8
+        vals += [pow(2, -t, R), pow(2, -1, R), (3 * pow(2, -t, R)) % R]
         for x in vals:
             for mode in ("native", "plain"):
                 cases.append(dict(sys="engine", mode=mode, kind="nbits", bits=n, x=str(x), strat="honest"))
+            if x >= 2**n:
+                cases.append(dict(sys="engine", mode="plain", kind="nbits", bits=n, x=str(x), strat="nonbool"))
+                cases.append(dict(sys="r1cs", mode="plain", kind="nbits", bits=n, x=str(x), strat="nonbool"))
             if n % 16 == 0 or n in (1, 63, 5):
                 cases.append(dict(sys="engine", mode="commit", kind="nbits", bits=n, x=str(x), strat="honest"))
             for sysn in ("r1cs", "scs"):
